@@ -299,9 +299,12 @@ class Ctx:
         with export shims overlaid into the packages they open up (only *adding* paths)."""
         hdir = os.path.join(VERIF, "harness")
         overlay = {}
-        for f in os.listdir(os.path.join(hdir, prog)):
-            if f.endswith(".go"):
-                overlay[os.path.join(REPO, "internal", "zzverif", prog, f)] = os.path.join(hdir, prog, f)
+        for sub in [prog, "netsim"]:
+            if not os.path.isdir(os.path.join(hdir, sub)):
+                continue
+            for f in os.listdir(os.path.join(hdir, sub)):
+                if f.endswith(".go"):
+                    overlay[os.path.join(REPO, "internal", "zzverif", sub, f)] = os.path.join(hdir, sub, f)
         exp = os.path.join(hdir, "exports")
         if os.path.isdir(exp):
             for f in os.listdir(exp):
